@@ -2,3 +2,5 @@ import SekaiProofs.Props.C19
 import SekaiProofs.Props.C07
 import SekaiProofs.Props.C08
 import SekaiProofs.Props.C13
+import SekaiProofs.Props.C05
+import SekaiProofs.Props.C15
